@@ -236,6 +236,7 @@ def run(plan):
                 return
         frame = w.ns.command.GetStateCommand().tobytes().hex()
         last_failed = [True]
+        prior_trouble = [False]
         if plan.get("lifetime") is not None:
             ac.set_max_connection_lifetime(plan["lifetime"])
         for i in range(plan.get("presends", 0)):
@@ -296,6 +297,15 @@ def run(plan):
                         if not dels and len(tx) != 3:
                             res.fail("refresh gave up before using all retries", f"{len(tx)}")
                             return
+            if kind == "fin_idle" and set(fx) <= {"kind", "r", "api", "pre_close", "pre_rst", "pre_burst", "idle"}:
+                # the unit hung up while the connection was idle (with or without unread reports in the queue): no
+                # exchange has failed so far, and the unit answers promptly on a new connection
+                failed = (o.kind != "ok") if api == "send" else (o.kind != "ok" or not ac.online)
+                if failed and not prior_trouble[0]:
+                    res.fail("exchange after the unit closed an idle connection failed",
+                             f"{o!r}; device saw {[e['kind'] for e in evs][:8]}")
+                    return
+            prior_trouble[0] = True
             # handshake retry contract
             hs = [e for e in evs if e["kind"] == "hs_req"]
             by_conn = {}
@@ -325,7 +335,8 @@ def run(plan):
         if o.kind != "ok":
             res.fail(f"recovery: refresh raised {o.exc_type}", repr(o.exc))
             return
-        if not ac.online and not last_failed[0]:
+        only_benign = all(f["kind"] in ("timing", "drop_all", "dup_rejected") for f in plan["faults"])
+        if not ac.online and not last_failed[0] and not only_benign:
             # the preceding exchange had succeeded (e.g. on a stale response) and hostile bytes arrived after
             # it: this refresh is then itself the failed exchange, and the *next* one must succeed
             w.probe("recovery_exchange_was_the_failed_one")
